@@ -166,6 +166,50 @@ class _Worker:
         return None, "crash:exit%s" % rc, info
 
 
+def blocked_inside(info):
+    """Innermost Python frame of the stacks the worker dumped -> (file, line, function, enclosing class).
+    A call that blocks with no CPU progress while that frame is the innermost one is blocked below it, in
+    native code the frame called."""
+    import re
+
+    frames = re.findall(r'File "([^"]+)", line (\d+) in (\S+)', info or "")
+    if not frames:
+        return None
+    # faulthandler prints most recent call first; the dump taken last is the most recent state
+    blocks = re.split(r"(?:Current thread|Thread) 0x[0-9a-f]+ \(most recent call first\):", info)
+    last = blocks[-1] if len(blocks) > 1 else info
+    m = re.search(r'File "([^"]+)", line (\d+) in (\S+)', last)
+    if not m:
+        return None
+    fn, line, func = m.group(1), int(m.group(2)), m.group(3)
+    cls = None
+    try:
+        src = open(fn, encoding="utf-8").read().splitlines()
+        for i in range(min(line, len(src)) - 1, -1, -1):
+            mm = re.match(r"class (\w+)", src[i])
+            if mm:
+                cls = mm.group(1)
+                break
+            if re.match(r"(def|async def) ", src[i]):
+                break
+    except OSError:
+        pass
+    return fn, line, func, cls
+
+
+def library_deadlock_key(info):
+    """Mechanism key when the blocked call is a third-party codec object's own method (py7zr's frame is the
+    thin wrapper class around it), else None."""
+    b = blocked_inside(info)
+    if not b:
+        return None
+    fn, line, func, cls = b
+    if fn.endswith("/py7zr/compressor.py") and cls == "PpmdDecompressor" and func == "decompress":
+        return "codec-library/pyppmd-decoder-deadlock"
+    return None
+
+
+
 def run_cases(modname, cases, mod, workers=None, progress=True, budget_s=None):
     """Run all cases; returns list of (case, result)."""
     workers = workers or int(os.environ.get("VF_WORKERS", getattr(mod, "WORKERS", 16)))
@@ -208,6 +252,13 @@ def run_cases(modname, cases, mod, workers=None, progress=True, budget_s=None):
                         res.setdefault("obs", {})["abnormal_end_not_reproduced:" + first.split(":")[0]] = 1
                     else:
                         info = info2 or info
+                reproduced = None
+                if res is None and kind == "deadlock":
+                    # the witness (no CPU progress, stacks) stands either way; what the second run, alone in a
+                    # fresh worker, decides is whether the block needs the history of that worker process
+                    # (a codec library's leaked threads from earlier hostile inputs) or only this input
+                    res2, kind2, _ = w.run(i, c, float(c.get("_timeout", timeout)) if isinstance(c, dict) else timeout)
+                    reproduced = res2 is None and kind2 == "deadlock"
                 if res is None:
                     if hasattr(mod, "on_abnormal"):
                         res = mod.on_abnormal(c, kind, info)
@@ -215,6 +266,14 @@ def run_cases(modname, cases, mod, workers=None, progress=True, budget_s=None):
                         res = {"verdict": "inconclusive", "key": kind, "what": "worker ended abnormally (%s)" % kind}
                     res.setdefault("detail", {})["stderr_tail"] = info[-3000:]
                     res["abnormal"] = kind
+                    valid_input = res.pop("valid_input", False)
+                    if reproduced is not None:
+                        res.setdefault("obs", {})["deadlock_reproduced_alone" if reproduced else "deadlock_not_reproduced_alone"] = 1
+                    if kind == "deadlock" and res.get("verdict") == "violated" and not (valid_input and reproduced):
+                        lk = library_deadlock_key(info)
+                        if lk:
+                            res["key"] = lk
+                            res["what"] = "call blocked for good inside the codec library (no CPU progress; innermost frame %s:%s %s)" % blocked_inside(info)[:3]
                 results[i] = (c, res)
                 with lock:
                     done[0] += 1
